@@ -1,11 +1,12 @@
 // t8panics: translator T8 (property C16). Purely syntactic go/parser scan of
 // the parser/linker/bundler packages:
-//   * goroutine spawn sites (`go f(...)`, `go func(){...}()`), whether the
+//   - goroutine spawn sites (`go f(...)`, `go func(){...}()`), whether the
 //     spawned body defers a recover wrapper, and which parser/printer entry
 //     points it reaches through the same-package call graph;
-//   * functions that construct a js_lexer lexer and whether they defer the
+//   - functions that construct a js_lexer lexer and whether they defer the
 //     LexerPanic recover before doing so;
-//   * the inventory of panic( sites, typed LexerPanic vs other.
+//   - the inventory of panic( sites, typed LexerPanic vs other.
+//
 // usage: t8panics <repo> <outdir>   writes <outdir>/PanicSitesGen.v
 // Fails closed (exit 1, no file) if the sources do not look as expected.
 package main
@@ -279,7 +280,9 @@ func main() {
 	nTyped := 0
 	entryNames := map[string]bool{}
 	haveRecoverInternal, haveParseFile := false, false
-	for _, dir := range pkgs {
+	var serviceSpawns []string
+	pass := 1
+	scan := func(dir string) {
 		matches, _ := filepath.Glob(filepath.Join(repo, dir, "*.go"))
 		sort.Strings(matches)
 		p := &pkgInfo{dir: dir, decls: map[string][]*ast.FuncDecl{}}
@@ -362,10 +365,15 @@ func main() {
 							}
 							sort.Strings(sinks)
 						}
-						spawns = append(spawns, fmt.Sprintf("mkSpawn %s %s %d %s %s %d %s", q(dir), q(encl), ord, q(target), b(resolved), level, qlist(sinks)))
+						line := fmt.Sprintf("mkSpawn %s %s %d %s %s %d %s", q(dir), q(encl), ord, q(target), b(resolved), level, qlist(sinks))
+						if pass == 1 {
+							spawns = append(spawns, line)
+						} else {
+							serviceSpawns = append(serviceSpawns, line)
+						}
 						ord++
 					case *ast.CallExpr:
-						if id, ok := v.Fun.(*ast.Ident); ok && id.Name == "panic" && len(v.Args) == 1 {
+						if id, ok := v.Fun.(*ast.Ident); ok && pass == 1 && id.Name == "panic" && len(v.Args) == 1 {
 							typed := false
 							if cl, ok := v.Args[0].(*ast.CompositeLit); ok {
 								t := exprText(cl.Type)
@@ -418,6 +426,20 @@ func main() {
 			}
 		}
 	}
+	for _, dir := range pkgs {
+		scan(dir)
+	}
+	// second pass: goroutines of the API layer and of the stdio service, with BUILD-level sinks
+	pass = 2
+	sinkQualified = map[string]bool{"api.Build": true, "api.Transform": true, "api.Context": true, "bundler.ScanBundle": true, "linker.Link": true,
+		"api.FormatMessages": true, "api.AnalyzeMetafile": true, "cli.Run": true, "cli.ParseBuildOptions": true, "cli.ParseTransformOptions": true}
+	sinkSuffix = []string{"Compile", "Rebuild", "Watch", "Serve", "Dispose", "Cancel"}
+	for _, dir := range []string{"pkg/api", "cmd/esbuild", "pkg/cli"} {
+		scan(dir)
+	}
+	if len(serviceSpawns) < 20 {
+		die("only %d goroutine spawn sites found in pkg/api, cmd/esbuild, pkg/cli", len(serviceSpawns))
+	}
 	if len(spawns) < 10 {
 		die("only %d goroutine spawn sites found", len(spawns))
 	}
@@ -446,6 +468,7 @@ func main() {
 		fmt.Fprintf(&sb, "Definition %s : list %s := [\n  %s\n].\n\n", name, typ, strings.Join(items, ";\n  "))
 	}
 	emit("spawn_sites", "spawn", spawns)
+	emit("service_spawn_sites", "spawn", serviceSpawns)
 	emit("lexer_entries", "entry", entries)
 	emit("panic_sites", "panicsite", panics)
 	if err := os.MkdirAll(outdir, 0o755); err != nil {
